@@ -71,6 +71,7 @@ func init() {
 	reg(&spec{ID: "C08", Pkg: "./harness/c08", Level: "model_checking", ShardsQ: n, ShardsT: n, DeadQ: 150, DeadT: 1500})
 	tinfo := []instrSpec{{File: "terminfo/terminfo.go", Time: true}}
 	reg(&spec{ID: "C01", Pkg: "./harness/draw", Level: "model_checking", ShardsQ: n, ShardsT: n, DeadQ: 240, DeadT: 2400, Args: []string{"-prop", "C01"}, InstrFiles: tinfo})
+	reg(&spec{ID: "C09", Pkg: "./harness/draw", Level: "exploration", ShardsQ: n, ShardsT: n, DeadQ: 240, DeadT: 2400, Args: []string{"-prop", "C09"}, InstrFiles: tinfo})
 	reg(&spec{ID: "C13", Pkg: "./harness/draw", Level: "model_checking", ShardsQ: n, ShardsT: n, DeadQ: 240, DeadT: 2400, Args: []string{"-prop", "C13"}, InstrFiles: tinfo})
 	reg(&spec{ID: "C02", Pkg: "./harness/c02", Level: "exploration", ShardsQ: n, ShardsT: n, DeadQ: 240, DeadT: 1800})
 	reg(&spec{ID: "C03", Pkg: "./harness/c03", Level: "exploration", ShardsQ: n, ShardsT: n, DeadQ: 150, DeadT: 1500})
